@@ -201,13 +201,19 @@ def replay_music(chk, st, rng):
                 den = 1.0 / psd
             half = nfft // 2
             bad = None
-            for m in range(4):
-                mc = m if m < 2 else m - 4                    # centred bin -2..1 of the 4-point grid
-                got = den[half + c * mc]
-                exp = D[(4 - m) % 4]
-                if not np.isfinite(got) or abs(got - exp) > 1e-7 * P:
-                    bad = 'bin %d/4: 1/pseudo-spectrum = %r, exact value %r' % (m, got, exp)
-                    break
+            # C17 pins where the pseudo-spectrum peaks and that it is positive, not its normalisation: the four
+            # denominators are compared after dividing each set by its largest member
+            got4 = np.array([den[half + c * (m if m < 2 else m - 4)] for m in range(4)])   # centred bins -2..1
+            exp4 = np.array([D[(4 - m) % 4] for m in range(4)])
+            if not np.all(np.isfinite(got4)) or np.max(got4) <= 0:
+                bad, exp = 'denominators %r' % (got4.tolist(),), 1.0
+            else:
+                got4, exp4n = got4 / np.max(got4), exp4 / np.max(exp4)
+                for m in range(4):
+                    got, exp = got4[m], exp4n[m]
+                    if abs(got - exp) > 1e-7:
+                        bad = 'bin %d/4: normalised 1/pseudo-spectrum = %r, exact value %r' % (m, got, exp)
+                        break
             if bad:
                 chk.violation('C17:music-exact:%s' % ('at-a-tone' if exp == 0 else 'off-tone'),
                               'eigen(x, P=%d, NSIG=%d, music, NFFT=%d) for tones at bins %s of the 4-point grid: %s' % (P, K, nfft, tones, bad), case)
@@ -220,9 +226,10 @@ def replay_music(chk, st, rng):
             else:
                 with np.errstate(all='ignore'):
                     dv = 1.0 / v
+                dv = dv / np.max(dv[::c]) if np.all(np.isfinite(dv[::c])) and np.max(dv[::c]) > 0 else dv * np.nan
                 for m in range(4):
-                    exp = D[(4 - m) % 4]
-                    if not np.isfinite(dv[c * m]) or abs(dv[c * m] - exp) > 1e-7 * P:
+                    exp = D[(4 - m) % 4] / max(D)
+                    if not np.isfinite(dv[c * m]) or abs(dv[c * m] - exp) > 1e-7:
                         chk.violation('C17:music-exact:class:%s' % ('at-a-tone' if exp == 0 else 'off-tone'),
                                       'pmusic(P=%d, NSIG=%d, NFFT=%d), tones %s: entry %d has 1/psd = %r, exact value %r' % (P, K, nfft, tones, c * m, dv[c * m], exp), case)
                         break
